@@ -175,6 +175,7 @@ let () = iter_lines (fun line ->
         let sch = get (next ()) in let id = next_z () in
         let s = parse_struct () in
         show print_gval (gen_struct fuel sch id s)
+      | "hostile" -> "hostile"   (* raw hostile bytes: observed on the implementation only (never panics / hangs / over-allocates) *)
       | "insp" ->
         let sch = get (next ()) in let id = next_z () in
         let s0 = parse_struct () in
